@@ -1134,6 +1134,8 @@ where
             }
         };
 
+        anda_db_utils::verif_point!("btree.insert.after_posting");
+
         if is_new {
             // Add the field value to the B-tree for range queries.
             //
@@ -1148,6 +1150,8 @@ where
                 btree.insert(field_value.clone());
             }
         }
+
+        anda_db_utils::verif_point!("btree.insert.after_btree");
 
         // If the index was modified, update bucket state
         let mut new_bucket = 0;
@@ -1220,6 +1224,8 @@ where
             }
         }
 
+        anda_db_utils::verif_point!("btree.insert.after_bucket");
+
         if new_bucket > 0 {
             // Create a new bucket and migrate this data to it
             match self.buckets.entry(new_bucket) {
@@ -1291,6 +1297,8 @@ where
             }
         }
 
+        anda_db_utils::verif_point!("btree.remove.after_posting");
+
         if removed {
             let mut entry_removed = false;
             if posting_empty {
@@ -1303,9 +1311,12 @@ where
                     .is_some();
 
                 if entry_removed {
+                    anda_db_utils::verif_point!("btree.remove.after_remove_if");
                     self.remove_btree_key_if_posting_absent(&field_value);
                 }
             }
+
+            anda_db_utils::verif_point!("btree.remove.before_bucket");
 
             let size_decrease = if entry_removed {
                 full_size_decrease
@@ -1423,6 +1434,8 @@ where
             }
         }
 
+        anda_db_utils::verif_point!("btree.insert_array.after_precheck");
+
         // Ensure the current bucket exists (see insert()).
         let bucket_id = self.max_bucket_id.load(Ordering::Relaxed);
         if !self.buckets.contains_key(&bucket_id) {
@@ -1503,6 +1516,8 @@ where
             }
         }
 
+        anda_db_utils::verif_point!("btree.insert_array.after_postings");
+
         // Add all new values to the B-tree in a single operation.
         // Same phantom-key guard as in `insert`: skip keys whose posting was
         // concurrently removed between posting creation and this point.
@@ -1514,6 +1529,8 @@ where
                 }
             }
         }
+
+        anda_db_utils::verif_point!("btree.insert_array.after_btree");
 
         // Phase 2: handle bucket overflow and updates
         // Process each field value individually to avoid migrating existing values unnecessarily.
@@ -1564,6 +1581,8 @@ where
                 }
             }
         }
+
+        anda_db_utils::verif_point!("btree.insert_array.after_buckets");
 
         // Phase 3: Create new buckets if needed
         if !field_values_to_migrate.is_empty() {
@@ -1722,6 +1741,8 @@ where
             }
         }
 
+        anda_db_utils::verif_point!("btree.remove_array.after_postings");
+
         // Remove empty postings from the index.
         // Use atomic check-and-remove: a concurrent `insert` might have re-populated
         // a posting between the first pass and here, so only remove if still empty.
@@ -1753,11 +1774,15 @@ where
             bucket_entry.1.insert(field_value);
         }
 
+        anda_db_utils::verif_point!("btree.remove_array.after_remove_if");
+
         if !entries_removed.is_empty() {
             for value in &entries_removed {
                 self.remove_btree_key_if_posting_absent(value);
             }
         }
+
+        anda_db_utils::verif_point!("btree.remove_array.before_buckets");
 
         // Update all modified buckets
         for (bucket_id, (size_decrease, field_values)) in bucket_updates {
@@ -2470,7 +2495,9 @@ where
         // Exclusive: no mutation may observe — or add to — the half-rebuilt
         // bucket map. Every mutator takes the shared side of this gate before
         // touching any other lock, so the ordering is uniform and deadlock-free.
+        anda_db_utils::verif_point!("btree.compact.before_gate");
         let _mutation_guard = self.mutation_gate.write();
+        anda_db_utils::verif_point!("btree.compact.in_gate");
 
         let old_count = self.buckets.len();
         if old_count <= 1 {
@@ -2539,6 +2566,62 @@ where
         });
 
         (old_count, new_count)
+    }
+
+    /// Verification hook: walks `postings`, `btree` and `buckets` under the
+    /// exclusive mutation gate and checks the structural invariants documented
+    /// on [`BTreeIndex`]: postings and btree keys are in bijection, no posting
+    /// is empty, and every posting is listed by the bucket it names (that is
+    /// the bucket whose serialization persists it).
+    #[cfg(feature = "verif")]
+    pub fn verif_check_invariants(&self) -> Result<(), String> {
+        let _mutation_guard = self.mutation_gate.write();
+        let btree = self.btree.read();
+        if btree.len() != self.postings.len() {
+            return Err(format!(
+                "btree has {} keys but postings has {} entries",
+                btree.len(),
+                self.postings.len()
+            ));
+        }
+        for entry in self.postings.iter() {
+            let fv = entry.key();
+            let posting = entry.value();
+            if posting.2.is_empty() {
+                return Err(format!("empty posting kept for key {fv:?}"));
+            }
+            if !btree.contains(fv) {
+                return Err(format!("posting key {fv:?} missing from btree"));
+            }
+            match self.buckets.get(&posting.0) {
+                None => {
+                    return Err(format!(
+                        "posting {fv:?} names bucket {} which does not exist",
+                        posting.0
+                    ));
+                }
+                Some(bucket) => {
+                    if !bucket.2.contains(fv) {
+                        return Err(format!(
+                            "posting {fv:?} names bucket {} which does not list it",
+                            posting.0
+                        ));
+                    }
+                }
+            }
+            if posting.0 > self.max_bucket_id.load(Ordering::Relaxed) {
+                return Err(format!(
+                    "posting {fv:?} names bucket {} above max_bucket_id",
+                    posting.0
+                ));
+            }
+        }
+        for key in btree.iter() {
+            if !self.postings.contains_key(key) {
+                return Err(format!("phantom btree key {key:?} without posting"));
+            }
+        }
+        Ok(())
     }
 
     /// Updates the index metadata
